@@ -60,9 +60,10 @@ ASSUMPTIONS = [
     'is not counted as access to builtins (fixed in DESIGN before building)',
     'expressions nested deeper than 40 levels are judged leniently: any '
     'exception counts as a rejection provided nothing was evaluated',
-    'a variable named like the evaluator\'s own positional parameter '
-    '("expr") is never supplied (a Python calling-convention clash, judged '
-    'under C11)',
+    'a completion expression that contains no name at all is accepted by '
+    'config validation without being evaluated (counter '
+    'config_nameless_accepted_unevaluated); only side effects are judged '
+    'there',
     'an expression naming the unsupplied compile-time constant __debug__ '
     'may either raise NameError (reference) or be refused with the error '
     'class before anything is evaluated',
@@ -331,11 +332,11 @@ POOL = ['Name', 'Load', 'Constant', 'BoolOp', 'And', 'Or', 'UnaryOp', 'Not',
         'LtE', 'Gt', 'GtE', 'Is', 'IsNot', 'In', 'NotIn', 'IfExp', 'Tuple',
         'List']
 
-SUPPLIED = ['a', 'b', 't', 'z', 's', 'c', 'f', 'obj']
+SUPPLIED = ['a', 'b', 't', 'z', 's', 'c', 'f', 'obj', 'expr']
 UNSUPPLIED = ['len', 'open', 'print', 'eval', 'exec', '__import__', 'getattr',
               'globals', 'locals', 'vars', 'dir', 'type', 'object', 'compile',
               '__name__', '__file__', '__loader__', '__spec__', '__doc__',
-              'expr', 'expr_node', 'variables', 'visitor', 'whitelist',
+              'expr_node', 'variables', 'visitor', 'whitelist',
               'error_class', 'ast', 'node', 'self', 'sys', 'os', 'nosuch',
               'A', 'exit', 'quit', 'copyright', 'True_', '__debug__']
 CONSTANTS = ['0', '1', '2', '7', "'s'", 'None', 'True', 'False', '...',
@@ -355,6 +356,8 @@ def variables(canary_path):
     return {
         'a': 1, 'b': 0, 't': True, 'z': False, 's': 'str',
         'c': Canary('c'), 'f': canary_function, 'obj': Plain(),
+        # same spelling as the evaluator's own first parameter
+        'expr': 3,
     }
 
 
@@ -1034,12 +1037,16 @@ def via_config(ctx, rng, canary_path, j):
                            for n in ast.walk(ast.parse(text, mode='eval')))
         except SyntaxError:
             has_name = True
-        key = ('C24:config:hostile-completion-accepted' if has_name else
-               'C24:config:nameless-completion-not-validated')
-        ctx.violation(
-            key,
-            f'completion = {text!r} (non-whitelisted syntax) was accepted '
-            f'by WorkflowConfig validation', desc)
+        if has_name:
+            ctx.violation(
+                'C24:config:hostile-completion-accepted',
+                f'completion = {text!r} (non-whitelisted syntax) was '
+                f'accepted by WorkflowConfig validation', desc)
+        else:
+            # an expression without any name is never evaluated by
+            # validation; it is still refused, unevaluated, by the
+            # evaluator at run time - not a violation of the statement
+            ctx.count('config_nameless_accepted_unevaluated')
     elif outcome != 'rejected':
         ctx.count('config_rejected_by_other_exception')
 
